@@ -29,9 +29,9 @@ const refFeatures = "/etc/apparmor.d/abi/3.0"
 
 // Ref describes how the reference parser is invoked.
 type Ref struct {
-	Base     string   // -b: base directory for includes (default /etc/apparmor.d)
-	Includes []string // -I: extra include search dirs, in priority order
-	Features bool     // -M abi/3.0: compile mount/dbus/signal/ptrace/unix rules too
+	Base     string        // -b: base directory for includes (default /etc/apparmor.d)
+	Includes []string      // -I: extra include search dirs, in priority order
+	Features bool          // -M abi/3.0: compile mount/dbus/signal/ptrace/unix rules too
 	Timeout  time.Duration // budget for one run (0: refTimeout)
 }
 
@@ -683,6 +683,7 @@ func viewRaw(d *DFA, s uint32) string {
 //   - audit bits are only consulted for permissions that are granted ('audit unix (accept
 //     setopt)' sets both audit bits on every state the rule creates, two rules set one each):
 //     they are masked by the allow bits of their half.
+//
 // Layout (include/file.h, dfa_user_* / dfa_other_*): accept1 = user(allow 0-6, x 7-9, index
 // 10-13) | other << 14; accept2 = user(audit 0-6, quiet 7-13) | other << 14.
 func viewMeaning(d *DFA, s uint32) string {
